@@ -142,11 +142,13 @@ type Once struct {
 }
 
 func (o *Once) Do(f func()) {
-	vrt.Yield("Once.Do(load)")
+	// fast-path load and slow-path lock attempt are one visible step: the
+	// state in between is not observable by other threads
+	vrt.Await(func() bool { return o.done || !o.m.held }, "Once.Do")
 	if o.done {
 		return
 	}
-	o.m.Lock()
+	o.m.held = true
 	defer o.m.Unlock()
 	if !o.done {
 		defer func() { o.done = true }()
